@@ -108,6 +108,11 @@ def qcow2_spec(draw, tier="quick", layer=0, size_clusters=None, cluster_bits=Non
     for gi in (0, l2e - 1, l2e, l2e + 1, 2 * l2e - 1, 2 * l2e, ng - 1):
         if 0 <= gi < ng and draw(st.booleans()):
             desc.add(gi)
+    if ng > l2e and draw(st.integers(0, 2)) == 0:
+        # an L1 entry without an L2 table (nothing described in its range) followed by one whose first cluster is described
+        hole = draw(st.integers(0, (ng - 1) // l2e - 1))
+        desc = {g for g in desc if g // l2e != hole}
+        desc.add((hole + 1) * l2e)
     desc = sorted(desc)
     if ext:
         pool = ["n", "n", "n", "z", "u"] + ([] if data_file else ["c"])
@@ -198,6 +203,12 @@ def strategy_(draw, tier):
     cs = 1 << spec["cluster_bits"]
     unit = cs // 32 if spec["ext_l2"] and draw(st.booleans()) else cs
     spec["requests"] = draw(strat.requests(spec["size"], unit, count=6, points=request_points(spec), whole_limit=2 << 20))
+    span = cs * (cs // (16 if spec["ext_l2"] else 8))
+    if spec["size"] > span:
+        # always: a request that starts inside the last cluster in front of an L1 boundary and ends behind it
+        p0 = span * draw(st.integers(1, min(3, (spec["size"] - 1) // span)))
+        back = draw(st.sampled_from([512, 8192, 8192 + 512, cs // 2, cs - 512]))
+        spec["requests"].append([max(0, p0 - back), back + draw(st.sampled_from([1, 512, 8192, cs]))])
     return spec
 
 
